@@ -2,6 +2,7 @@ import Ln.Basic
 import Ln.Commit
 import Pl.OneShot
 import Idn.DevsConsume
+import Pl.Listing
 
 /-! # C12 — property theorems (statements only; proofs live in the family libraries) -/
 
@@ -69,6 +70,21 @@ theorem counted_merge_once :
 theorem run_langs :
     ∀ (ce : Bool) (cs : List Cin), ∀ e ∈ (run ce cs).ticks, LangOK e.2 :=
   @DevsC.run_langs
+end
+
+section
+open Pl
+
+/-- the per-commit listing (a record is appended exactly when the merge flag is off): on a plan that passes the adjacency
+check a commit is listed exactly when it is replayed exactly once … -/
+theorem listing_iff :
+    ∀ (plan : List Action) (h : adjOK plan = true) (c : Nat), c ∈ listing plan ↔ replayCount plan c = 1 :=
+  @Pl.listing_iff
+
+/-- … and it is listed once -/
+theorem listing_count :
+    ∀ (plan : List Action) (h : adjOK plan = true) (c : Nat), (listing plan).count c ≤ 1 :=
+  @Pl.listing_count
 end
 
 end Props.C12
